@@ -387,7 +387,7 @@ impl Scenario for SniffSim {
                 let reflog = Arc::new(Mutex::new(HandlerLog::default()));
                 let mut plans = BTreeMap::new();
                 for id in [5u32, 7, 9, 11, 13] {
-                    plans.insert(id, HandlerPlan { delay_ms: if id == 13 { 10_000 } else { 0 }, resp_len: 70, resp_chunk: 33, resp_delay_ms: 0, fail: false, upgrade: false, redirect: None });
+                    plans.insert(id, HandlerPlan { delay_ms: if id == 13 { 10_000 } else { 0 }, resp_len: 70, resp_chunk: 33, resp_delay_ms: 0, fail: false, upgrade: false, redirect: None, resp_trailers: false });
                 }
                 let plans = Arc::new(plans);
                 // ---- system under test: a real hyperdriver server with protocol detection
